@@ -76,7 +76,10 @@ def handleProbe (gamePort : Int) (rs : List (Option (Nat × List Bytes))) (out :
     | ["failed"] => acc.isEmpty
     | ["chosen", k, v, _] => acc.any fun a => toString a.port == k && a.resp.version.tag == v && a.resp.version.toNat == maxVer
     | _ => false
-  verdict (model == out.take 3) ok s!"sig=choice model={" ".intercalate model}"
+  -- several accepted answers of the same, most capable dialect: which of them is kept depends on real arrival
+  -- order ("latest wins"), i.e. on timing under load — the property fixes the dialect and membership, not the port
+  let tie := ok && model.getD 0 "" == "chosen" && out.getD 0 "" == "chosen" && model.getD 2 "" == out.getD 2 ""
+  verdict (model == out.take 3 || tie) ok s!"sig=choice model={" ".intercalate model}"
 
 def handle (args out : List String) : Verdict :=
   match args with
